@@ -364,6 +364,47 @@ fn run_reuse(n: usize, first: usize, out: &mut JobOut) {
     }
 }
 
+/// An f32 axis with more knots than f32 can count (2^24 + 2: the last index is not representable):
+/// every second f32 starting at 1.0, so that the float between two knots is the exact midpoint of
+/// the cell. Cells at both ends, at the binade boundaries and the last three are queried.
+fn run_huge_f32(out: &mut JobOut) {
+    use ndarray::Array1;
+    use ndarray_interp::interp1d::{Interp1DBuilder, Linear};
+    let n: usize = (1 << 24) + 2;
+    let knot = |i: usize| f32::from_bits(0x3f80_0000 + 2 * i as u32);
+    let val = |i: usize| [3.0f32, -1.0, 4.0, 1.5, -5.0, 9.0, 2.0][i % 7];
+    let x: Array1<f32> = (0..n).map(knot).collect();
+    let y: Array1<f32> = (0..n).map(val).collect();
+    let ip = match catch(|| Interp1DBuilder::new(y).x(x).strategy(Linear::new()).build()) {
+        Ok(Ok(ip)) => ip,
+        other => {
+            out.violate("huge-f32-axis:build", format!("a strictly increasing f32 axis of 2^24 + 2 knots was not accepted: {:?}", other.map(|r| r.map(|_| ()))), Json::Null);
+            return;
+        }
+    };
+    out.states += 1;
+    let mut cells: Vec<usize> = vec![0, 1, 2, (1 << 22) - 1, 1 << 22, (1 << 23) - 1, 1 << 23, 3 << 22, (1 << 24) - 2, (1 << 24) - 1, n - 4, n - 3, n - 2];
+    cells.dedup();
+    for k in cells {
+        let mid = f32::from_bits(0x3f80_0000 + 2 * k as u32 + 1);
+        for (q, want, what) in [(knot(k), val(k), "left knot"), (mid, (val(k) + val(k + 1)) / 2.0, "midpoint"), (knot(k + 1), val(k + 1), "right knot")] {
+            let got = catch(|| ip.interp_scalar(q));
+            out.evals += 1;
+            out.transitions += 1;
+            out.nontrivial += 1;
+            let ok = matches!(&got, Ok(Ok(v)) if (v - want).abs() <= 8.0 * f32::EPSILON * val(k).abs().max(val(k + 1).abs()));
+            if !ok {
+                out.violate(
+                    format!("huge-f32-axis:cell{k}:{what}").replace(' ', ""),
+                    format!("Linear<f32> on an axis of 2^24 + 2 knots, cell {k}, {what} (q = {q:e}): got {got:?}, the chord gives {want}"),
+                    Json::obj(vec![("cell", Json::Int(k as i128)), ("query_bits", Json::str(&format!("{:#x}", q.to_bits()))), ("expected", Json::Num(want as f64))]),
+                );
+            }
+        }
+    }
+    out.sample = Some(Json::str("f32 axis = every second float from 1.0, 2^24 + 2 knots"));
+}
+
 fn body(ctx: &Ctx) -> (Summary, Meta) {
     let mut jobs = vec![];
     for f32 in [false, true] {
@@ -427,8 +468,13 @@ fn body(ctx: &Ctx) -> (Summary, Meta) {
         run_reuse(j.0, j.1, &mut out);
         out
     }));
+    sum.merge(run_jobs(ctx, "huge-f32-axis", &[()], |_| "huge-f32-axis".to_string(), |_| {
+        let mut out = JobOut::default();
+        run_huge_f32(&mut out);
+        out
+    }));
     let meta = Meta {
-        rule: "every axis of the alphabet (value-set subsets incl. ulp clusters and far offsets, interval words, long deviation-bounded words, non-dyadic axes, default index axes) x all data lanes x every query {knot, both float neighbours of every knot, quarter points, range ends} x 4 entry points; oracle = exact rational chord through the two knots found by linear scan. Non-trivial = query strictly inside an interval whose two knot values differ. Phase axis-storage-reuse: every ordered pair (A, B) of different interval words over {1, 2, 1/2} with 3..5 knots: an interpolator over a view of a buffer holding A is queried at every knot and quarter point and dropped, the buffer is overwritten with B and a second interpolator over the same view is queried; both against the exact chord.".into(),
+        rule: "every axis of the alphabet (value-set subsets incl. ulp clusters and far offsets, interval words, long deviation-bounded words, non-dyadic axes, default index axes) x all data lanes x every query {knot, both float neighbours of every knot, quarter points, range ends} x 4 entry points; oracle = exact rational chord through the two knots found by linear scan. Non-trivial = query strictly inside an interval whose two knot values differ. Phase axis-storage-reuse: every ordered pair (A, B) of different interval words over {1, 2, 1/2} with 3..5 knots: an interpolator over a view of a buffer holding A is queried at every knot and quarter point and dropped, the buffer is overwritten with B and a second interpolator over the same view is queried; both against the exact chord. Phase huge-f32-axis: an f32 axis of 2^24 + 2 knots (every second float from 1.0; the last index is not representable in f32), knots and exact midpoints of 13 cells at the ends, at binade boundaries and at the very end.".into(),
         bounds: format!("{njobs} (type, axis) jobs; tier {}", ctx.tier.name()),
         assumptions: vec!["tolerance 8 eps max(|y1|,|y2|) (a few ulps of the larger bracketing value)".into()],
         extra: vec![],
